@@ -1,6 +1,6 @@
 """T-eq / T-ord / T-hash : laws of the real `impl PartialEq/Ord/Hash for SqlValue` (+ Interval), in place (Kani)."""
 NAME = 'T-laws'
-PROPERTIES = ['C21', 'C07', 'C08']
+PROPERTIES = ['C21', 'C07']
 ENGINE = 'kani'
 CLASS = 'C'
 CRATE = 'vibesql-types'
